@@ -466,8 +466,14 @@ namespace _ST_PRIVATE
                     return error;
                 *dest++ = badchar_substitute;
             } else {
+                // A structurally valid 4-byte sequence can still encode a
+                // value above U+10FFFF, which UTF-16 cannot represent
                 error = write_utf16(dest, bigch);
-                ST_ASSERT(error == conversion_error_t::success, "Input character out of range");
+                if (error != conversion_error_t::success) {
+                    if (validation == ST::check_validity)
+                        return error;
+                    *dest++ = badchar_substitute;
+                }
             }
         }
 
